@@ -103,13 +103,13 @@ def _finish(procs):
 
 def _gc_cache(keep):
     """drop fact caches of other trees, but never one that another running check may still be reading: only
-    directories untouched for two hours, and always keep the eight most recent"""
+    directories untouched for forty minutes, and always keep the eight most recent"""
     try:
         now = time.time()
         ds = [d for d in os.listdir(CACHE) if os.path.isdir(os.path.join(CACHE, d))]
         ds.sort(key=lambda d: os.path.getmtime(os.path.join(CACHE, d)))
         for d in ds[:-8]:
-            if d != keep and now - os.path.getmtime(os.path.join(CACHE, d)) > 7200:
+            if d != keep and now - os.path.getmtime(os.path.join(CACHE, d)) > 2400:
                 shutil.rmtree(os.path.join(CACHE, d), ignore_errors=True)
     except OSError:
         pass
@@ -501,8 +501,18 @@ class Facts:
             self.j = json.load(fh)
         self.cfg = cfg
         self.features = self.j['features']
+        self.normalisation = {}
+        if not os.environ.get('VERIF_NO_NORMALISE'):
+            import normalize
+            self.normalisation = normalize.normalise(self.j, [f for f in self.features if f])
         self.bodies = {}
+        self.inlined_bodies = {}
         for b in self.j['bodies']:
+            if b.get('inlined_everywhere'):
+                # a helper the reviewed tree does not know, every call of which was replaced by its body: its statements
+                # are analysed where they execute (in the callers); listing it again would count them twice
+                self.inlined_bodies[b['path']] = Body(b, self)
+                continue
             self.bodies[b['path']] = Body(b, self)
         self.adts = {a['path']: a for a in self.j['adts']}
         self.impls = self.j['impls']
@@ -532,7 +542,17 @@ class Facts:
 
     def closures_of(self, body):
         pre = body.path + '::{closure'
-        return [b for p, b in self.bodies.items() if p.startswith(pre)]
+        out = [b for p, b in self.bodies.items() if p.startswith(pre)]
+        # closures created by code that was inlined from a helper keep the helper's path
+        extra = set()
+        for blk in body.blocks:
+            for st in blk['stmts']:
+                c = st.get('rv', {}).get('closure')
+                if c and not c.startswith(pre) and c in self.bodies:
+                    extra.add(c)
+        for c in sorted(extra):
+            out += [b for p, b in self.bodies.items() if p == c or p.startswith(c + '::{closure')]
+        return out
 
     def family(self, body):
         """body plus its (nested) closures"""
